@@ -34,10 +34,34 @@ def mut? (s : Comp) (f : List String) : Option (Comp × String × List Ev) :=
 /-- `nest`: "" = nothing pending; "R" / "U" = the next call has a subscriber reacting to the first event of that kind by making
     the call of the line after it; "!" = that subscriber fired (the next call is the one it made).  Every event is delivered when
     the call that emits it has finished writing, so the two calls compose like two calls made one after the other. -/
-partial def loop (h : IO.FS.Stream) (s : Comp) (sros : List (Nat × List Nat)) (nest : String := "") : IO Unit := do
-  let line ← h.getLine
+partial def loop (h : IO.FS.Stream) (s : Comp) (sros : List (Nat × List Nat)) (nest : String := "") (pre : Option String := none) : IO Unit := do
+  let line ← match pre with | some l => pure l | none => h.getLine
   if line.isEmpty then return ()
   let f := (line.trimAscii.toString.splitOn "|").map fun s => s.trimAscii.toString
+  -- a REPLACING registerUtility delivers the Unregistered event of the old utility in the middle: old one out, the subscriber's
+  -- call, then the registration proper (which looks at the slot again: repair 7054408)
+  if nest == "U" then
+    if let ["regU", c, p, name, info] := f then
+      if !(name.startsWith "#") then
+        let pv := if p.startsWith "^" then (p.drop 1).toString.toNat! else p.toNat!
+        let nmv := nm name
+        let cv := (comp c).get!
+        if let some reg := AList.get? s.utilRegs (pv, nmv) then
+          if !(reg.1.eq cv && reg.2 == info) then
+            let r1 := unregisterUtility s (some reg.1) pv nmv
+            if r1.2.1 == "True" then
+              let line2 ← h.getLine
+              let f2 := (line2.trimAscii.toString.splitOn "|").map fun s => s.trimAscii.toString
+              match mut? r1.1 f2 with
+              | some r2 =>
+                let r3 := registerUtility r2.1 cv pv nmv info
+                IO.println (out (r3.1, r3.2.1, r1.2.2 ++ r3.2.2))
+                IO.println (out r2 ++ " NESTED")
+                return (← loop h r3.1 sros "")
+              | none =>          -- (a shrunk script: no call follows, nothing is armed in the implementation either)
+                let r := registerUtility s cv pv nmv info
+                IO.println (out r)
+                return (← loop h r.1 sros "" (some line2))
   if let some r := mut? s f then
     let fired := nest != "" && nest != "!" && r.2.2.any (fun e => (Ev.str e).startsWith nest)
     IO.println (out r ++ (if nest == "!" then " NESTED" else ""))
